@@ -1,11 +1,14 @@
 """C12 - validation treats its inputs as read-only (schema/instance part; documents: see spec family)."""
 import schema_common as S
+import spec_common as SP
 
 ASSUMPTIONS = [
     "aliasing is decided by a syntactic classification of write targets (extractor) plus deep snapshots, not by a heap semantics of Go",
     "schemas containing $ref or id are expanded in place by design and are outside the claim",
 ]
-RULE = ("schema and schemamal families: JSON snapshots of the instance and of the parsed schema before and after "
+RULE = ("spec and specmut families: doc.Raw() bytes before/after 7+ validations of every loaded document, and the parsed doc.Spec() "
+        "(JSON snapshot) for accepted documents without self-referential definitions; "
+        "schema and schemamal families: JSON snapshots of the instance and of the parsed schema before and after "
         "AgainstSchema and (*SchemaValidator).Validate; schema snapshots compared only for reference-free schemas; "
         "non-trivial = schema with at least 3 keywords, distinct by hash")
 
@@ -36,6 +39,26 @@ def correspond(ctx, C):
                 checked_schema += 1
                 if not obs.get("schemaSame", True):
                     viol.append((case, {"what": "a reference-free schema was modified by validation (%s)" % name}))
+    # documents: bytes never change; the parsed specification does not change for accepted, non-circular documents
+    docs = raw_checked = spec_checked = 0
+    if not rp:
+        for r in SP.run(ctx, C, "spec", 256, 4000) + SP.run(ctx, C, "specmut", 160, 4000):
+            go, m = r["go"], r["m"] or {}
+            if not isinstance(go, dict) or not go.get("loaded") or "crash" in go or "runs" not in go:
+                continue
+            docs += 1
+            if "rawSame" in go:
+                raw_checked += 1
+                if not go["rawSame"]:
+                    viol.append((r["case"], {"what": "validating a specification changed the bytes of the loaded document (doc.Raw())"}))
+            accepted = all(x.get("valid") for x in go["runs"]) and go["runs"]
+            if accepted and not m.get("circular", True):
+                spec_checked += 1
+                if not go.get("specSame", True):
+                    viol.append((r["case"], {"what": "validating an accepted specification without self-referential definitions changed the parsed specification (doc.Spec())"}))
     cov = st.coverage(RULE)
+    cov["documents"] = docs
+    cov["document_bytes_compared"] = raw_checked
+    cov["accepted_document_specs_compared"] = spec_checked
     cov["schema_snapshots_compared"] = checked_schema
     return {"coverage": cov, "violations": viol[:3], "known": []}
